@@ -156,6 +156,8 @@ def counts(c, st, Pset):
 
 # ---------------------------------------------------------------- the contract
 c = contract('PureScheduler.co_run', F).param('self').returns('ref')
+# co_run numbers its jobs for its messages only: it uses the frame-only (assumed) contract of _set_sched_ids
+c.dispatch_override = {'_set_sched_ids': 'PureScheduler._set_sched_ids/frame-only'}
 c.for_props('C01', 'C02', 'C03', 'C04', 'C05', 'C06', 'C08', 'C09', 'C11', 'C12', 'C13')
 c.is_async = True
 c.ghost_init = init_vt
